@@ -1,10 +1,36 @@
 #!/bin/bash
-# Runs, for every seeded change under /verif/seeded, the quick check of its property with the
-# change applied to /repo (undone afterwards) and records the outcome in seeded/<id>/detected.txt.
-cd /verif
-for d in seeded/*/; do
+# Runs, for every seeded change under /verif/seeded (and every reverted fix under /verif/mutants),
+# the quick check of its property against a scratch worktree of /repo with the change applied, and
+# records the outcome in seeded/<id>/detected.txt (mutants/<name>.detected.txt). Works on scratch
+# copies under /tmp (worktree of /repo HEAD + copy of /verif/sim pointing at it), removed at the end,
+# so it can run next to other work; the result is the same as `tools/try_mutant.sh` on /repo itself.
+set -u
+R=/tmp/evalrepo; S=/tmp/evalsim; O=/tmp/evalout
+rm -rf $S $O; git -C /repo worktree remove --force $R 2>/dev/null
+git -C /repo worktree add -q --detach $R HEAD || exit 2
+mkdir -p $S $O/evidence; cp -r /verif/sim/src /verif/sim/Cargo.lock /verif/sim/.cargo $S/
+sed "s|path = \"/repo\"|path = \"$R\"|" /verif/sim/Cargo.toml > $S/Cargo.toml
+cp /verif/known_findings.json $O/
+export CARGO_NET_OFFLINE=true RUST_BACKTRACE=0 VERIF_DIR=$O
+run_one() { # patch, property, outfile
+  if ! git -C $R apply "$1"; then echo "PATCH-DOES-NOT-APPLY" > "$3"; return; fi
+  if (cd $S && cargo build --release --offline >$O/build.log 2>&1); then
+    out=$($S/target/release/simcheck check --property $2 --tier quick 2>&1); code=$?
+    { echo "property=$2 exit=$code"; echo "$out" | grep -E "violation:|VIOLATION|HARNESS|KNOWN|verdict" | sed "s|$O|/verif|g" | cut -c1-800; } > "$3"
+  else
+    echo "BUILD-FAILED" > "$3"
+  fi
+  git -C $R checkout -q -- .
+}
+for d in /verif/seeded/*/; do
   id=$(basename $d); prop=${id%%-*}
-  out=$(tools/try_mutant.sh /verif/$d/patch.diff $prop 2>&1)
-  echo "$out" | grep -E "exit=|violation:|PATCH|HARNESS" | cut -c1-700 > $d/detected.txt
+  run_one $d/patch.diff $prop $d/detected.txt
   echo "$id: $(head -1 $d/detected.txt)"
 done
+for m in /verif/mutants/revert-fix-*.diff; do
+  prop=$(basename $m | sed 's/revert-fix-\(C[0-9]*\)-.*/\1/')
+  run_one $m $prop ${m%.diff}.detected.txt
+  echo "$(basename $m): $(head -1 ${m%.diff}.detected.txt)"
+done
+git -C /repo worktree remove --force $R; rm -rf $S $O
+echo SEEDED-EVAL-DONE
